@@ -761,19 +761,22 @@ generated value is the one the hand-written model `PW/Model/Line.lean` was writt
 Lean literal of the model, that the model computes with exactly the generated value — so that an edit of one of them in
 the source breaks a proof obligation here. -/
 
-/-- the two shortcuts of `intersect_lines`: `p0` when `p0 == p1` or `p0 == q1`; `q0` when `q0 == p1` or (sic)
-    `p0 == q1` — the pairs the model's `intersectLines` tests with `v3beq`, in this order. -/
+/-- [text; semantic through `gen_intersect_lines`] the two shortcuts of `intersect_lines`: `p0` when `p0 == p1` or
+    `p0 == q1`; `q0` when `q0 == p1` or (sic) `p0 == q1`.  `gen_intersect_lines` evaluates these generated pairs,
+    operators and results inside the restated model function. -/
 theorem gen_shortcuts :
     PW.Gen.LineFn.shortcutP0Pairs = ["p0 p1", "p0 q1"] ∧ PW.Gen.LineFn.shortcutP0Ops = [.eq, .eq] ∧
     PW.Gen.LineFn.shortcutP0Result = "p0" ∧
     PW.Gen.LineFn.shortcutQ0Pairs = ["p0 q1", "p1 q0"] ∧ PW.Gen.LineFn.shortcutQ0Ops = [.eq, .eq] ∧
-    PW.Gen.LineFn.shortcutQ0Result = "q0" := by decide
+    PW.Gen.LineFn.shortcutQ0Result = "q0" ∧
+    PW.Gen.LineFn.shortcutP0PairList = [("p0", "p1"), ("p0", "q1")] ∧
+    PW.Gen.LineFn.shortcutQ0PairList = [("p0", "q1"), ("p1", "q0")] := by decide
 
 /-- the auxiliary vectors of `intersect_lines`: `e = p0 - q0`, `f = p1 - q1`, `g = p0 - p1`, `h = cross(f, g)`,
     `k = cross(f, e)`, and the general result `p0 + sign * (|h| / |k| * e)` (operands in the translator's normal order). -/
 theorem gen_intersect_vectors :
     PW.Gen.LineFn.eSrc = "p0 - q0" ∧ PW.Gen.LineFn.fSrc = "p1 - q1" ∧ PW.Gen.LineFn.gSrc = "p0 - p1" ∧
-    PW.Gen.LineFn.hSrc = "np.cross(F, G)" ∧ PW.Gen.LineFn.kSrc = "np.cross(F, E)" ∧ PW.Gen.LineFn.sameF = true ∧
+    PW.Gen.LineFn.hSrc = "np.cross(F, G)" ∧ PW.Gen.LineFn.kSrc = "np.cross(F, E)" ∧ PW.Gen.LineFn.sameF = some true ∧
     PW.Gen.LineFn.resultSrc =
       "(-1 if np.dot(H, K) > 0 else 1) * E * (vg.magnitude(H) / vg.magnitude(K)) + p0" :=
   ⟨rfl, rfl, rfl, rfl, rfl, by decide, rfl⟩
@@ -781,9 +784,26 @@ theorem gen_intersect_vectors :
 section GenTies
 variable {R : Type} [Field R] [LinearOrder R] [IsStrictOrderedRing R] [Sqrt R]
 
-/-- the tests after the shortcuts — `k_ == 0` (None), `h_ == 0` (p0), `np.dot(g, k) != 0` (None) — and the sign rule
-    `-1 if np.dot(h, k) > 0 else +1`: the model's `intersectLines` tests exactly the generated comparisons against the
-    generated bounds and multiplies by the generated signs. -/
+/-- the point an argument name of `intersect_lines` stands for -/
+def pointOfName (p0 q0 p1 q1 : V3 R) (s : String) : Option (V3 R) :=
+  if s = "p0" then some p0 else if s = "q0" then some q0 else if s = "p1" then some p1
+  else if s = "q1" then some q1 else none
+
+/-- what a `return <name>` of `intersect_lines` returns -/
+def resultOfName (p0 q0 p1 q1 : V3 R) (s : String) : Option (Option (V3 R)) :=
+  if s = "None" then some none else (pointOfName p0 q0 p1 q1 s).map some
+
+/-- `np.all(x == y) or …` over the generated pairs and operators -/
+def pairsHold (pt : String → Option (V3 R)) (pairs : List (String × String)) (ops : List PW.Gen.Cmp) : Bool :=
+  (pairs.zip ops).any fun po =>
+    match pt po.1.1, pt po.1.2 with
+    | some x, some y => (match po.2 with | .eq => v3beq x y | .ne => !v3beq x y | _ => false)
+    | _, _ => false
+
+/-- [semantic] the whole of `intersect_lines`: the two shortcuts (generated pairs of arguments, operators, returned
+    argument), the tests `k_ == 0` (None), `h_ == 0` (p0), `np.dot(g, k) != 0` (None) with their returned values, and the
+    sign rule `-1 if np.dot(h, k) > 0 else +1`: the model's `intersectLines` IS the function obtained from the generated
+    pairs, comparisons, bounds, results and signs.  (`resultOfName`, `pointOfName`: names ↔ arguments, by hand.) -/
 theorem gen_intersect_lines :
     (PW.Gen.LineFn.kZeroCmp = .eq ∧ PW.Gen.LineFn.kZeroLhs = "vg.magnitude(K)" ∧ PW.Gen.LineFn.kZeroRhs = 0 ∧
       PW.Gen.LineFn.kZeroResult = "None") ∧
@@ -793,30 +813,48 @@ theorem gen_intersect_lines :
       PW.Gen.LineFn.skewResult = "None") ∧
     (PW.Gen.LineFn.signCmp = .gt ∧ PW.Gen.LineFn.signLhs = "np.dot(H, K)" ∧ PW.Gen.LineFn.signRhs = 0 ∧
       PW.Gen.LineFn.signThen = -1 ∧ PW.Gen.LineFn.signElse = 1) ∧
-    ∀ (p0 q0 p1 q1 : V3 R), intersectLines p0 q0 p1 q1 =
-      (let e := p0 - q0
+    ∀ (p0 q0 p1 q1 : V3 R), some (intersectLines p0 q0 p1 q1) =
+      (let pt := pointOfName p0 q0 p1 q1
+       let res := resultOfName p0 q0 p1 q1
+       let e := p0 - q0
        let f := p1 - q1
-       if v3beq p0 p1 || v3beq p0 q1 then some p0
-       else if v3beq q0 p1 || v3beq p0 q1 then some q0
+       if pairsHold pt PW.Gen.LineFn.shortcutP0PairList PW.Gen.LineFn.shortcutP0Ops then
+         res PW.Gen.LineFn.shortcutP0Result
+       else if pairsHold pt PW.Gen.LineFn.shortcutQ0PairList PW.Gen.LineFn.shortcutQ0Ops then
+         res PW.Gen.LineFn.shortcutQ0Result
        else
          let g := p0 - p1
          let h := f.cross g
          let k := f.cross e
-         if PW.Gen.LineFn.kZeroCmp.test k.norm ((PW.Gen.LineFn.kZeroRhs : Int) : R) then none
-         else if PW.Gen.LineFn.hZeroCmp.test h.norm ((PW.Gen.LineFn.hZeroRhs : Int) : R) then some p0
-         else if PW.Gen.LineFn.skewCmp.test (g.dot k) ((PW.Gen.LineFn.skewRhs : Int) : R) then none
+         if PW.Gen.LineFn.kZeroCmp.test k.norm ((PW.Gen.LineFn.kZeroRhs : Int) : R) then
+           res PW.Gen.LineFn.kZeroResult
+         else if PW.Gen.LineFn.hZeroCmp.test h.norm ((PW.Gen.LineFn.hZeroRhs : Int) : R) then
+           res PW.Gen.LineFn.hZeroResult
+         else if PW.Gen.LineFn.skewCmp.test (g.dot k) ((PW.Gen.LineFn.skewRhs : Int) : R) then
+           res PW.Gen.LineFn.skewResult
          else
            let sign : R :=
              if PW.Gen.LineFn.signCmp.test (h.dot k) ((PW.Gen.LineFn.signRhs : Int) : R)
              then ((PW.Gen.LineFn.signThen : Int) : R) else ((PW.Gen.LineFn.signElse : Int) : R)
-           some (p0 + V3.smul sign (V3.smul (h.norm / k.norm) e))) := by
+           some (some (p0 + V3.smul sign (V3.smul (h.norm / k.norm) e)))) := by
   refine ⟨⟨by decide, rfl, by decide, rfl⟩, ⟨by decide, rfl, by decide, rfl⟩, ⟨by decide, rfl, by decide, rfl⟩,
     ⟨by decide, rfl, by decide, by decide, by decide⟩, ?_⟩
   intro p0 q0 p1 q1
+  have hc : v3beq p1 q0 = v3beq q0 p1 := by
+    rw [Bool.eq_iff_iff, v3beq_iff, v3beq_iff]
+    exact eq_comm
+  have ho : (p0 = q1 ∨ q0 = p1) = (q0 = p1 ∨ p0 = q1) := propext Or.comm
   unfold intersectLines
+  simp only [pairsHold, pointOfName, resultOfName, PW.Gen.LineFn.shortcutP0PairList, PW.Gen.LineFn.shortcutP0Ops,
+    PW.Gen.LineFn.shortcutP0Result, PW.Gen.LineFn.shortcutQ0PairList, PW.Gen.LineFn.shortcutQ0Ops,
+    PW.Gen.LineFn.shortcutQ0Result, PW.Gen.LineFn.kZeroResult, PW.Gen.LineFn.hZeroResult, PW.Gen.LineFn.skewResult,
+    List.zip_cons_cons, List.zip_nil_right, List.any_cons, List.any_nil, String.reduceEq, if_true, if_false,
+    Bool.or_false, hc, Option.map_some]
   simp [PW.Gen.Cmp.test, PW.Gen.LineFn.kZeroCmp, PW.Gen.LineFn.kZeroRhs, PW.Gen.LineFn.hZeroCmp,
     PW.Gen.LineFn.hZeroRhs, PW.Gen.LineFn.skewCmp, PW.Gen.LineFn.skewRhs, PW.Gen.LineFn.signCmp,
     PW.Gen.LineFn.signRhs, PW.Gen.LineFn.signThen, PW.Gen.LineFn.signElse]
+  simp only [ho]
+  split_ifs <;> rfl
 
 end GenTies
 
@@ -867,5 +905,21 @@ theorem gen_line_object :
       if almostZero atol along then .error .ValueError else .ok ⟨point, along⟩) ∧
     (∀ l : Line K, l.referencePoints = (l.ref, l.ref + l.along)) :=
   ⟨⟨rfl, rfl, by decide⟩, rfl, rfl, rfl, rfl, rfl, fun _ _ _ => rfl, fun _ => rfl⟩
+
+/-- [text] what the symbolic reader does not interpret, pinned to the source the model was written from: for every
+    function read by `harness/translate/c18.py` its decorators, its parameter list with defaults, the statements whose
+    effect is not modelled (shape checks, imports, the attribute stores of `Line.__init__`, the `try` of
+    `intersect_2d_lines` — any added in-place call, loop, `with`, `del`, … shows up here), and the number of other bindings
+    of its name in the enclosing scope. -/
+theorem gen_function_shapes :
+    PW.Gen.LineFn.functionShapes =
+      [("intersect_lines", [], "p0, q0, p1, q1", ["expr vg.shape.check(locals(), 'p0', (3,))", "expr vg.shape.check(locals(), 'q0', (3,))", "expr vg.shape.check(locals(), 'p1', (3,))", "expr vg.shape.check(locals(), 'q1', (3,))"], 0),
+       ("intersect_2d_lines", [], "p0, q0, p1, q1", ["expr vg.shape.check(locals(), 'p0', (2,))", "expr vg.shape.check(locals(), 'q0', (2,))", "expr vg.shape.check(locals(), 'p1', (2,))", "expr vg.shape.check(locals(), 'q1', (2,))", "try"], 0),
+       ("project_point_to_line", [], "points, reference_points_of_lines, vectors_along_lines", ["expr check_shape_any(reference_points_of_lines, (3,), (-1 if check_shape_any(points, (3,), (-1, 3), name='points') is None else check_shape_any(points, (3,), (-1, 3), name='points'), 3), name='reference_points_of_lines')", "expr vg.shape.check(locals(), 'vectors_along_lines', reference_points_of_lines.shape)"], 0),
+       ("Line.__init__", [], "self, point, along, assume_normalized=False", ["expr vg.shape.check(locals(), 'point', (3,))", "expr vg.shape.check(locals(), 'along', (3,))", "store self.reference_point = point", "store self.along = along", "store self.assume_normalized = assume_normalized"], 0),
+       ("Line.from_points", ["classmethod"], "cls, p1, p2", ["expr vg.shape.check(locals(), 'p1', (3,))", "expr vg.shape.check(locals(), 'p2', (3,))"], 0),
+       ("Line.reference_points", ["property"], "self", [], 0),
+       ("Line.intersect_line", [], "self, other", ["importfrom from ._line_intersect import intersect_lines"], 0),
+       ("Line.project", [], "self, points", ["importfrom from ._line_functions import project_point_to_line"], 0)] := by rfl
 
 end PW.C18
